@@ -17,14 +17,14 @@ use crate::tape::Tape;
 use crate::with_spec;
 
 pub const RULE: &str = "(input, partition of the input into async read results, Poll::Pending pattern, buffered-master set): a scripted AsyncRead owned by the harness hands out the bytes in the given partition (never more than the caller's buffer), \
-optionally answering Poll::Pending (self-waking) before any read, driven on futures::executor::block_on; both `next().await` loops and `into_stream()` are exercised. Oracle: item sequence, last_emitted_tag_offset() after every item and the first error equal those of the blocking TagIterator over the whole slice; \
-after the end, None is returned again. OPEN FINDING D14 (nonblocking.rs performs one source read per next() and lets the inner blocking iterator take 'no more bytes yet' for end of input): schedules in which some next() call is made before the bytes of the tag it has to parse have been delivered are excluded BY CONSTRUCTION and counted; \
-the generator builds multi-read partitions in which every call's tag is already delivered (computed from the blocking parse), single-read schedules, and inputs > 64 KiB (larger than the adapter's transfer buffer). With buffered masters the per-call byte requirements are simulated from the unbuffered parse (a call that emits a Full item needs everything up to the tag that follows the master). \
-Non-trivial: partition with >= 2 non-empty reads, or >= 1 Pending; distinct by (input, schedule, buffered set).";
+answering Poll::Pending (self-waking) at chosen points, driven on futures::executor::block_on; both `next().await` loops and `into_stream()` are exercised. Stage all_partitions: EVERY composition of a small document (valid / truncated / corrupted, length <= 12 quick / <= 15 thorough) into reads, \
+with and without buffered masters. Stage any_partition: the reader mix (valid, non-canonical, mutated, random, adversarial, mid-document; 1 in 12 larger than the 64 KiB transfer buffer) × random partitions (1-byte reads, 1-3, 1-17, up to 300, everything at once) × Pending pattern × buffered sets. \
+Oracle: item sequence, last_emitted_tag_offset() after every item and the first error equal those of the blocking TagIterator over the whole slice; after the end, None is returned again. Non-trivial: partition with >= 2 non-empty reads, or >= 1 Pending; distinct by (input, schedule, buffered set).";
 
 pub const ASSUMPTIONS: &[&str] = &[
     "single-threaded, harness-owned polling: real executors' timing is out of scope by construction",
-    "the excluded class is the open finding findings/C20-D14-straddle.json; with the exclusion in force the check still catches a broken read path, offset plumbing, double termination, lost or duplicated reads",
+    "the async adapter has no size-limit setter: inputs in which some header-shaped byte sequence announces more than 4 MiB (under the default 4 GB limit) are skipped for the harness' own safety and counted",
+    "a source that reports I/O errors is outside the property's quantifier (C05 covers source errors for the blocking iterator)",
 ];
 
 #[derive(Clone, Debug, PartialEq, Eq)]
@@ -441,7 +441,168 @@ fn stage(i: &Input, c: &mut Case) -> Result<(), String> {
     })
 }
 
-/// the pinned open finding: a fixed 33-byte document, partition [5, 28]
+
+// ---------------------------------------------------------------------------------------------
+// unrestricted schedules: ANY partition of the input into reads, with Pending polls anywhere
+
+fn gen_async_steps(t: &mut Tape, len: usize) -> (Vec<AStep>, usize, usize) {
+    let mut steps = Vec::new();
+    let mut left = len;
+    let mode = t.below(5);
+    let mut reads = 0;
+    let mut pend = 0;
+    while left > 0 && steps.len() < 6000 {
+        if t.chance(1, 6) {
+            steps.push(AStep::Pending);
+            pend += 1;
+        }
+        let n = match mode {
+            0 => 1,
+            1 => 1 + t.below(3),
+            2 => 1 + t.below(17),
+            3 => 1 + t.below(left.min(300)),
+            _ => left,
+        }
+        .min(left);
+        steps.push(AStep::Chunk(n));
+        reads += 1;
+        left -= n;
+        if t.exhausted() && mode >= 2 {
+            break;
+        }
+    }
+    if t.chance(1, 4) {
+        steps.push(AStep::Pending);
+        pend += 1;
+    }
+    (steps, reads, pend)
+}
+
+fn stage_any(i: &Input, c: &mut Case) -> Result<(), String> {
+    let mut t = Tape::new(i.tape());
+    // three quarters of the cases use specifications whose ids have at most 3 bytes: a 4-byte id following a 1-byte id reads as a
+    // header declaring hundreds of MiB, which the harness' safety scan (below) must then exclude
+    let mut mo = MixOpts { weights: [5, 4, 4, 1, 1, 2], ..MixOpts::default() };
+    if t.chance(3, 4) {
+        mo.spec.max_id_len = 3;
+    }
+    let big = t.chance(1, 12);
+    if big {
+        mo.tree.pay = crate::gen::PayOpts { big_left: 6, huge: false, max_small: 40 };
+        mo.tree.max_nodes = 60;
+    }
+    let mut m = gen_mixed(&mut t, mo);
+    if big {
+        // > 64 KiB (larger than the adapter's transfer buffer): the document's bytes repeated
+        let unit = m.bytes.clone();
+        while m.bytes.len() <= 70_000 && !unit.is_empty() {
+            m.bytes.extend_from_slice(&unit);
+            if unit.len() < 200 {
+                let pad: Vec<u8> = unit.iter().cycle().take(unit.len() * 40).copied().collect();
+                m.bytes.extend_from_slice(&pad);
+            }
+        }
+    }
+    let len = m.bytes.len();
+    let masters = m.spec.table().masters();
+    let mut buffered: Vec<u64> = Vec::new();
+    if !masters.is_empty() && t.chance(1, 3) {
+        for _ in 0..1 + t.below(3) {
+            let id = masters[t.below(masters.len())];
+            if !buffered.contains(&id) {
+                buffered.push(id);
+            }
+        }
+    }
+    let (steps, reads, pend) = gen_async_steps(&mut t, len);
+    c.label_if(big, "input_larger_than_64KiB");
+    c.label(m.origin.label());
+    c.label_if(!buffered.is_empty(), "buffered_set");
+    c.label_if(reads >= 2, "two_or_more_reads");
+    c.label_if(pend > 0, "has_pending");
+    c.nontrivial = reads >= 2 || pend > 0;
+    c.key(&(&m.bytes, &format!("{:?}", steps), &buffered));
+    c.sample_with(|| format!("{} | schedule {:?} | buffered {:x?}", describe_mixed(&m), &steps[..steps.len().min(24)], buffered));
+    with_spec!(m.spec, T => {
+        let cfg = ReadCfg { buffered: buffered.clone(), max_size: MaxSize::Set(Some(1 << 20)), ..ReadCfg::default() };
+        let base = read_all::<T>(&m.bytes, &cfg);
+        if matches!(base.last(), Some(Obs::Panic(_)) | Some(Obs::Runaway(_))) {
+            return Err(format!("blocking iterator: {}", render_obs(&base)));
+        }
+        if base.iter().any(|o| matches!(o, Obs::Err(ErrK::InvalidTagSize { .. }))) {
+            c.skipped = true;
+            c.exclude("input_declares_more_than_1MiB_and_async_adapter_has_no_limit_setter");
+            return Ok(());
+        }
+        // a straddling schedule may make the inner iterator look at a size field of a tag that the complete parse never reaches
+        // the same way; keep the harness safe: no offset of the input may announce more than 4 MiB under the default limit
+        if max_declarable_size(&m.bytes, 4_000_000_000) > SAFE_ALLOC {
+            c.skipped = true;
+            c.exclude("some_offset_announces_multi_MiB_size_under_default_limit");
+            return Ok(());
+        }
+        let (obs, again_none, _) = run_async::<T>(&m.bytes, steps.clone(), &buffered, item_bound(len));
+        c.checks += 1;
+        let ctx = |msg: String| format!("{}\n  schedule: {:?}\n  buffered: {:x?}\n  async:    {}\n  blocking: {}\n  input: {}", msg, &steps[..steps.len().min(40)], buffered, render_obs(&obs), render_obs(&base), describe_mixed(&m));
+        if obs != base {
+            return Err(ctx("the async iterator's items / offsets / first error differ from the blocking iterator's".into()));
+        }
+        if first_err(&base).is_none() && !again_none {
+            return Err(ctx("after returning None the async iterator did not return None again".into()));
+        }
+        let so = run_stream::<T>(&m.bytes, steps.clone(), &buffered, item_bound(len));
+        c.checks += 1;
+        if items_of(&so) != items_of(&base) || first_err(&so).map(|e| e.short()) != first_err(&base).map(|e| e.short()) {
+            return Err(ctx(format!("into_stream() yields a different sequence: {}", render_obs(&so))));
+        }
+        Ok(())
+    })
+}
+
+/// every composition of a small document into async reads (2^(len-1) schedules), with and without a Pending before each read
+fn stage_all_partitions(i: &Input, c: &mut Case) -> Result<(), String> {
+    let a = i.args();
+    let (seed, k, max_len) = (a[0], a[1], a[2] as usize);
+    let (spec, bytes, desc) = super::c04::small_doc(seed, k, max_len);
+    let len = bytes.len();
+    let masters = spec.table().masters();
+    let buffered: Vec<u64> = if k % 2 == 1 { masters.iter().copied().take(2).collect() } else { vec![] };
+    let mut units = 0u64;
+    with_spec!(spec, T => {
+        let cfg = ReadCfg { buffered: buffered.clone(), ..ReadCfg::default() };
+        let base = read_all::<T>(&bytes, &cfg);
+        for mask in 0..(1u64 << (len - 1)) {
+            let mut steps = Vec::new();
+            let mut run = 0usize;
+            for b in 0..len {
+                run += 1;
+                if b + 1 == len || (mask >> b) & 1 == 1 {
+                    if (mask ^ k) & 1 == 1 {
+                        steps.push(AStep::Pending);
+                    }
+                    steps.push(AStep::Chunk(run));
+                    run = 0;
+                }
+            }
+            let (obs, _, _) = run_async::<T>(&bytes, steps.clone(), &buffered, item_bound(len));
+            units += 1;
+            if obs != base {
+                return Err(format!(
+                    "async result depends on how the source splits the bytes:\n  input: {}\n  reads: {:?} buffered {:x?}\n  async:    {}\n  blocking: {}",
+                    desc, steps, buffered, render_obs(&obs), render_obs(&base)
+                ));
+            }
+        }
+    });
+    c.units = units;
+    c.nontrivial_units = units.saturating_sub(1);
+    c.checks = units;
+    c.label(if buffered.is_empty() { "unbuffered" } else { "buffered_set" });
+    c.sample_with(|| format!("{} × all {} partitions into async reads, buffered {:x?}", desc, 1u64 << (len - 1), buffered));
+    Ok(())
+}
+
+/// the pinned finding D14 (fixed): a fixed 33-byte document, partition [5, 28]
 fn stage_pinned(i: &Input, c: &mut Case) -> Result<(), String> {
     let a = i.args();
     let first = a.first().copied().unwrap_or(5) as usize;
@@ -470,16 +631,24 @@ fn stage_pinned(i: &Input, c: &mut Case) -> Result<(), String> {
     Ok(())
 }
 
-pub const STAGES: &[Stage] = &[Stage { name: "schedules", f: stage }, Stage { name: "pinned_straddle", f: stage_pinned }];
+pub const STAGES: &[Stage] = &[
+    Stage { name: "schedules", f: stage },
+    Stage { name: "pinned_straddle", f: stage_pinned },
+    Stage { name: "any_partition", f: stage_any },
+    Stage { name: "all_partitions", f: stage_all_partitions },
+];
 
 pub fn run(rc: &mut RunCtx) {
-    rc.run_pt(STAGES[0], rc.pick(60_000, 1_500_000), (96, 600));
-    rc.require_label("schedules", "two_or_more_reads", 100_000);
-    rc.require_label("schedules", "has_pending", 100_000);
-    rc.require_label("schedules", "buffered_set", 50_000);
-    rc.require_label("schedules", "input_larger_than_64KiB", 5_000);
-    rc.require_label("schedules", "multi_read_with_buffered_masters", 30_000);
+    let seed = rc.seed;
+    let (docs, max_len) = rc.pick((80u64, 12u64), (250u64, 15u64));
+    rc.run_indexed(STAGES[3], docs, false, &|k| Input::Args(vec![seed, k, max_len]));
+    rc.run_one(STAGES[1], Input::Args(vec![3]));
+    rc.run_pt(STAGES[2], rc.pick(80_000, 2_000_000), (128, 700));
+    rc.require_label("any_partition", "two_or_more_reads", 500_000);
+    rc.require_label("any_partition", "has_pending", 300_000);
+    rc.require_label("any_partition", "buffered_set", 100_000);
+    rc.require_label("any_partition", "input_larger_than_64KiB", 5_000);
     if !rc.quick() {
-        rc.run_fuzz(Some(STAGES[0]), 350);
+        rc.run_fuzz(Some(STAGES[2]), 350);
     }
 }
